@@ -231,6 +231,24 @@ async fn run_async(run: usize, steps: Vec<Value>, log: &mut Vec<Value>) {
 fn random_steps(rng: &mut impl Rng) -> Vec<Value> {
     let keys = ["a", "b", "key:with:colons"];
     let mut steps = Vec::new();
+    // one life in six: a busy key and a young one - the busy key's first writes go to the WAL only, its later ones are streamed,
+    // and the last streamed batch also holds the first write of a key on another (younger) shard: that batch's lowest stamp is
+    // below the earlier batch's, so recovery replays the later segment first
+    if rng.gen_range(0..6) == 0 {
+        let (busy, young) = if rng.gen_bool(0.5) { ("a", "b") } else { ("key:with:colons", "a") };
+        for _ in 0..rng.gen_range(1..=2) {
+            steps.push(json!({"a": "write", "k": busy, "place": "wal"}));
+        }
+        for _ in 0..[3usize, 5, 7][rng.gen_range(0..3)] {
+            steps.push(json!({"a": "write", "k": busy, "place": "seg"}));
+        }
+        steps.push(json!({"a": "write", "k": young, "place": "seg"}));
+        steps.push(json!({"a": "crash"}));
+        steps.push(json!({"a": "recover"}));
+        steps.push(json!({"a": "write", "k": busy, "place": "wal"}));
+        steps.push(json!({"a": "write", "k": young, "place": "wal"}));
+        return steps;
+    }
     let mut up = true;
     for _ in 0..rng.gen_range(4..=14) {
         let k = keys[rng.gen_range(0..keys.len())];
